@@ -5,10 +5,6 @@ from common import set_field
 
 NAME = "SmartAccount"
 
-def _json(ev):
-    return ev
-
-
 # ---- corruptions for the self-test (each must be rejected by Trace_SmartAccount) ---------------------------
 def _c_check_ok(ev):
     """a failed check reported as successful"""
@@ -125,7 +121,11 @@ _hist = dict(
     Batches={1, 41},
     BadMode="one", GenRules=3, Depth=2, Emit=True, EmitMod=3,
 )
-_hist_thorough = dict(Depth=3, EmitMod=40)
+_hist_thorough = dict(
+    Depth=3, EmitMod=40,
+    Supplied={F(), F({"s1"}), F({"s1", "s2", "d"}), F({"s2", "d", "u"}), F({"s1", "d"}), F({"s2"}), F({"d"}),
+              F({"s1", "s2", "d", "u"})},
+)
 # capacity, scaled: at most 2 rules, 2 signers, 1 policy (the real limits are exercised by the random driver)
 _cap = dict(
     _base, CTs={"D", "c1"}, LimRules=2, LimSigners=2, LimPolicies=1,
@@ -149,9 +149,12 @@ MODEL = dict(
         dict(name="nonvacuous", module="MC_SmartAccount", constants=dict(_hist, BUG="default_first", Emit=False, Depth=1),
              invariants=["NoViolation"], expect="violation"),
     ],
-    quick=dict(sample=4000, drive_runs=160, drive_len=40),
+    quick=dict(sample=4000, drive_runs=320, drive_len=40),
     thorough=dict(sample=None, drive_runs=4000, drive_len=60),
-    need=[("check", "ok"), ("check", "fail"), ("add_rule", "ok"), ("add_rule", "fail")],
+    need=[("check", "ok"), ("check", "fail"), ("init", "ok"), ("add_rule", "ok"), ("add_rule", "fail"), ("rm_rule", "ok"),
+          ("rm_rule", "fail"), ("upd_name", "ok"), ("upd_vu", "ok"), ("upd_vu", "fail"), ("add_signer", "ok"),
+          ("add_signer", "fail"), ("rm_signer", "ok"), ("rm_signer", "fail"), ("add_policy", "ok"), ("add_policy", "fail"),
+          ("rm_policy", "ok"), ("rm_policy", "fail")],
     selftest=[_c_check_ok, _c_check_fail, _c_enf_rule, _c_enf_twice, _c_scope, _c_count, _c_signer_list, _c_type_list,
               _c_dup_accepted, _c_id_reused],
 )
